@@ -17,8 +17,8 @@ def what_fn(case, obs, verdict):
 def run(ctx):
     common.standard(
         ctx, harness="hC09", extracted="C09_model", driver_dir="C09",
-        rule=("one case = one engine run (real provider of one format with a `headers` option list + real http gun, 1-4 instances, "
-              "plain or TLS target, keep-alive on/off); non-trivial: the configuration defines headers and either some key "
+        rule=("one case = one engine run (real provider of one format with a `headers` option list, preload on/off + real http gun, "
+              "1-4 instances, plain or TLS target answering with a generated status and body size 0 B..1.2 MB, keep-alive on/off); non-trivial: the configuration defines headers and either some key "
               "(canonical form) is defined both by the configuration and by an entry/in-file header, or the file has more "
               "than one item; distinct = distinct case lines. Header comparison: map sorted by canonical key, value lists in "
               "order; dropped from the recorded request because net/http writes them on its own account: Content-Length "
